@@ -192,7 +192,7 @@ func (E *Engine) encodeOnce(key string, preset map[string]string, presetTypes []
 				f.ghostRetTypes[k] = cf.Signature.Results()
 			} else if rt := E.libResultType(cs.Callee); rt != nil {
 				f.ghostRetTypes[k] = rt
-			} else if cf != nil && cf.Signature.Results().Len() == 0 {
+			} else if (cf != nil && cf.Signature.Results().Len() == 0) || cs.Callee == "select" {
 				// no result: the name serves called(name) and ncalls(name) only
 			} else {
 				cfail("calls ... as %s: callee %s not found or not single-valued", cs.As, cs.Callee)
@@ -285,7 +285,7 @@ func (f *frame) evalContractBool(cl *Clause, heap Heap, extra map[string]SV, old
 // (and definitions formula), "global" asserts definitions once for the whole query.
 func (f *frame) evalContractMode(cl *Clause, heap Heap, extra map[string]SV, oldHeap Heap, mode string) string {
 	bind := f.selfBind()
-	if f.contract != nil && len(f.contract.Calls) > 0 && f == f.enc.top && (cl.Kind == "invariant" || cl.Kind == "ensures" || cl.Kind == "throws" || cl.Kind == "unwind_ensures") {
+	if f.contract != nil && len(f.contract.Calls) > 0 && f == f.enc.top && (cl.Kind == "invariant" || cl.Kind == "at_backedge" || cl.Kind == "ensures" || cl.Kind == "throws" || cl.Kind == "unwind_ensures") {
 		// ghost results of "calls ... as name" clauses, as recorded in the heap the clause is read in
 		f.ghostBind(bind, heap)
 	}
